@@ -1322,6 +1322,7 @@ where
         self.is_client = is_client;
         self.pingreq_keep_alive_ms = 0;
         self.pingreq_server_keep_alive_ms = None;
+        self.pingreq_recv_timeout_ms = 0;
     }
 
     fn clear_store_related(&mut self) {
